@@ -219,17 +219,34 @@ class World:
         w = self
 
         class VSelector:
+            """selectors.DefaultSelector as far as the library uses it: registrations are keyed by descriptor number (a number that is
+            already registered is refused with KeyError, a closed file object with ValueError; a closed object is still found for
+            unregister by exhaustive search); a closed descriptor is never reported ready."""
+
             def __init__(self):
-                self.socks = []
+                self.map = {}
+
+            @property
+            def socks(self):
+                return [s for s in self.map.values() if not s.closed]
 
             def register(self, sock, events, data=None):
-                self.socks.append(sock)
+                fd = sock.fileno()
+                if not isinstance(fd, int) or fd < 0:
+                    raise ValueError(f"Invalid file descriptor: {fd}")
+                if fd in self.map:
+                    raise KeyError(f"{sock!r} (FD {fd}) is already registered")
+                self.map[fd] = sock
 
             def unregister(self, sock):
-                self.socks.remove(sock)
+                for fd, s_ in list(self.map.items()):
+                    if s_ is sock:
+                        del self.map[fd]
+                        return
+                raise KeyError(f"{sock!r} is not registered")
 
             def close(self):
-                self.socks = []
+                self.map = {}
 
             def select(self, timeout=None):
                 def ready():
@@ -249,6 +266,12 @@ class VSock:
 
     def __init__(self, world, events=(), status=None, silent_after=True, tls_pending=False, pong_latency=None):
         self.w = world
+        # descriptor numbers as the kernel hands them out: the lowest free one (so a new connection usually REUSES the number of the
+        # connection that was just closed -- selectors key their registrations by that number)
+        if not hasattr(world, "open_fds"):
+            world.open_fds = set()
+        self.fd = next(n for n in range(5, 10 ** 6) if n not in world.open_fds)
+        world.open_fds.add(self.fd)
         self.script = list(events)
         self.inbox = []              # (arrival, kind, data)
         self.log = []
@@ -389,6 +412,9 @@ class VSock:
     def close(self):
         self.log.append((self.w.now, "close"))
         self.closed += 1
+        if self.fd is not None:
+            self.w.open_fds.discard(self.fd)      # the descriptor number is free again: the next socket will get it
+            self.fd = None
 
     def shutdown(self, how=None):
         if getattr(self, "was_reset", False):
@@ -398,7 +424,7 @@ class VSock:
         self.inbox.append((self.w.now, "EOF"))
 
     def fileno(self):
-        return -1 if self.closed else 77
+        return -1 if self.closed or self.fd is None else self.fd
 
 
 class Patched:
